@@ -886,7 +886,7 @@ class SysRunner(FullRunner):
 
     def reset(self):
         super().reset()
-        System._instance = None
+        self.smode = False
         self.systems = []
         self.sassets = []
         self.init_counts = {}
@@ -894,6 +894,10 @@ class SysRunner(FullRunner):
     def handle_ext(self, toks):
         if toks[0] != 'S':
             return super().handle_ext(toks)
+        if not self.smode:
+            # lifecycle scenarios start without any System
+            System._instance = None
+            self.smode = True
         op = toks[1]
         try:
             if op == 'new':
